@@ -338,6 +338,9 @@ func (e *FnEnc) eaddr(base, idx string) string {
 		e.uf("eaddr_base", []string{"Int"}, "Int")
 		e.uf("eaddr_idx", []string{"Int"}, e.sorter.idxSort())
 		e.specDefs = append(e.specDefs, "(assert (forall ((r Int) (j "+e.sorter.idxSort()+")) (! (and (= (eaddr_base (eaddr r j)) r) (= (eaddr_idx (eaddr r j)) j) (not (= (eaddr r j) 0))) :pattern ((eaddr r j)))))")
+		// references that are not element slots have base 0 (eaddr_base/eaddr_idx are the inverse of eaddr on
+		// its image and constant outside it): a slot of a fresh array is therefore never an old object
+		e.specDefs = append(e.specDefs, "(assert (forall ((r Int)) (! (=> (not (= (eaddr_base r) 0)) (= r (eaddr (eaddr_base r) (eaddr_idx r)))) :pattern ((eaddr_base r)))))")
 	}
 	return "(" + f + " " + base + " " + idx + ")"
 }
